@@ -6,9 +6,11 @@ import (
 	"github.com/open-policy-agent/opa/rego"
 )
 
-func processResult(result *rego.ResultSet, eventChan *chan e.Event, validationConfig c.ValidationConfiguration, reportConfig c.ReportConfiguration) (string, error) {
+func processResult(result *rego.ResultSet, eventChan *chan e.Event, validationConfig c.ValidationConfiguration, reportConfig c.ReportConfiguration) (report string, err error) {
+	defer recoverAsError(&err)
+
 	dispatchEvent(e.NewEvent(e.BuildReportStart), eventChan)
-	report, err := BuildReport(result, validationConfig, reportConfig)
+	report, err = BuildReport(result, validationConfig, reportConfig)
 	dispatchEvent(e.NewEvent(e.BuildReportDone), eventChan)
 	return report, err
 }
